@@ -232,10 +232,11 @@ fn emit_wrapped_loop_choice_body(
         }
         branch_nodes.extend(choice.selected_tags.iter().cloned().map(Node::Tag));
         if !body_already_emitted && !choice.has_start_content {
-            let body_is_terminal_divert = matches!(
-                choice.body.as_slice(),
-                [Node::Divert(d)] if d.target == "END" || d.target == "DONE"
-            );
+            let body_is_terminal_divert = choice.body_divert_is_inline
+                && matches!(
+                    choice.body.as_slice(),
+                    [Node::Divert(d)] if d.target == "END" || d.target == "DONE"
+                );
             let body_is_inline_divert = matches!(choice.body.as_slice(), [Node::Divert(_)])
                 && selected_text.ends_with(char::is_whitespace);
             if !body_is_terminal_divert && !body_is_inline_divert {
